@@ -43,7 +43,7 @@ Guard(t) ==
   IF CondNum(G) \div CondDen(G) >= CondMax THEN "condition" ELSE
   IF ~InFamily(t.family, G) THEN "family" ELSE
   IF \E r \in DOMAIN t.routes : ~InFamily(RouteFamily(t.routes[r].name), G) THEN "route" ELSE
-  IF \E r \in DOMAIN t.routes : t.routes[r].name = "vectors" /\ t.kind # "L" THEN "route" ELSE
+  IF \E r \in DOMAIN t.routes : t.routes[r].name \in {"vectors", "respec_vectors"} /\ t.kind # "L" THEN "route" ELSE
   IF \E m \in DOMAIN t.pts : ~(Len(t.pts[m]) = 3 /\ \A i \in Ix : t.pts[m][i] \in -48..48) THEN "points" ELSE
   ""
 
